@@ -15,12 +15,20 @@
 (*   FixWorkerErr  an unexpected exception while building a test is        *)
 (*                 reported (NonFatalError + ERROR scenario) instead of    *)
 (*                 killing the worker thread silently                      *)
+(* PhaseOn = the enabled phases (a disabled phase is announced and closed  *)
+(* as skipped); AllowCtrlC = a KeyboardInterrupt may arrive while the      *)
+(* consumer waits in get().  Hypothesis is abstracted as follows: for one  *)
+(* operation it runs between 0 and K cases; a failed check or an error     *)
+(* does not end the test at once (Hypothesis goes on: more examples,       *)
+(* shrinking, the final replay) - the scenario's status is the worst       *)
+(* outcome seen; a test that ran no case ends as success or skip; an       *)
+(* errored test reports 0..MaxNFE NonFatalError events before it closes.   *)
 (*   AliveCheck    (TRUE = the code) the consumer polls the workers'       *)
 (*                 liveness after a queue timeout; FALSE = a consumer that *)
 (*                 only waits for events (refuted by Termination)          *)
 (***************************************************************************)
 EXTENDS EventProtocol, Sequences, TLC
-CONSTANTS W, NOps, K, MaxFail, NPhases, FixDrain, FixWorkerErr, AllowStop, AllowFault, AliveCheck
+CONSTANTS W, NOps, K, MaxFail, NPhases, FixDrain, FixWorkerErr, AllowStop, AllowFault, AliveCheck, PhaseOn, AllowCtrlC, MaxNFE
 NoLimit == 0
 Workers == 1..W
 Ops == 1..NOps
@@ -78,7 +86,7 @@ P_Start == /\ ppc = "start" /\ Emit(Ev("ES", 0, 0, "")) /\ ppc' = (IF stop THEN 
 P_PhaseStarted ==
   /\ ppc = "phase" /\ pi <= NPhases
   /\ Emit(Ev("PS", pi, 0, ""))
-  /\ ppc' = IF HasToStop THEN "skipphase" ELSE "suite"
+  /\ ppc' = IF HasToStop \/ pi \notin PhaseOn THEN "skipphase" ELSE "suite"
   /\ UNCHANGED <<pi, nextOp, q, wpc, wop, wcase, wout, stop, fails, limit, pstatus, executed, cur, problem, sentAfterStop, stopped, faulted>>
 P_Skip == /\ ppc = "skipphase" /\ Emit(Ev("PF", pi, 0, "skip"))
           /\ IF stop THEN ppc' = "finish" /\ pi' = pi ELSE ppc' = "phase" /\ pi' = pi + 1
@@ -118,6 +126,10 @@ C_Yield ==
   /\ WUnch /\ UNCHANGED <<pi, q, executed, problem, stopped, faulted>>
 C_CtrlC == /\ ppc = "ctrlc" /\ Emit(Ev("INT", pi, 0, "")) /\ pstatus' = "interrupted" /\ ppc' = "join" /\ cur' = NoEv
            /\ WUnch /\ UNCHANGED <<pi, q, stop, fails, limit, executed, problem, stopped, faulted>>
+(* KeyboardInterrupt raised inside events_queue.get(): the handler stops the engine and reports the interruption *)
+C_CtrlCGet == /\ AllowCtrlC /\ ppc = "get" /\ ~stopped
+              /\ stop' = TRUE /\ stopped' = TRUE /\ Emit(Ev("INT", pi, 0, "")) /\ pstatus' = "interrupted" /\ ppc' = "join"
+              /\ WUnch /\ UNCHANGED <<pi, q, fails, limit, executed, cur, problem, faulted>>
 C_Join == /\ ppc = "join" /\ AllDead
           /\ ppc' = "sf"
           /\ pstatus' = IF ~executed THEN "skip" ELSE IF pstatus = "none" THEN "skip" ELSE pstatus
@@ -151,23 +163,34 @@ W_Err1(w) == /\ wpc[w] = "err1" /\ Put(Ev("ScS", pi, ScId(pi, wop[w]), "")) /\ w
 W_Err2(w) == /\ wpc[w] = "err2" /\ Put(Ev("NFE", pi, ScId(pi, wop[w]), "")) /\ wpc' = [wpc EXCEPT ![w] = "finish"]
              /\ NoEmit /\ CUnch /\ UNCHANGED <<nextOp, wop, wcase, wout, stop, problem, sentAfterStop, stopped, faulted>>
 W_Started(w) == /\ wpc[w] = "started" /\ Put(Ev("ScS", pi, ScId(pi, wop[w]), ""))
-                /\ wpc' = [wpc EXCEPT ![w] = "check"] /\ wcase' = [wcase EXCEPT ![w] = 0]
-                /\ NoEmit /\ CUnch /\ UNCHANGED <<nextOp, wop, wout, stop, problem, sentAfterStop, stopped, faulted>>
-W_CaseCheck(w) ==      \* cached_test_func: `if ctx.has_to_stop: raise KeyboardInterrupt`, or Hypothesis is done
+                /\ wpc' = [wpc EXCEPT ![w] = "check"] /\ wcase' = [wcase EXCEPT ![w] = 0] /\ wout' = [wout EXCEPT ![w] = "none"]
+                /\ NoEmit /\ CUnch /\ UNCHANGED <<nextOp, wop, stop, problem, sentAfterStop, stopped, faulted>>
+Worse(a, b) == IF CRank(a) >= CRank(b) THEN a ELSE b
+W_CaseCheck(w) ==      \* cached_test_func: `if ctx.has_to_stop: raise KeyboardInterrupt`; otherwise Hypothesis runs another case or is done
   /\ wpc[w] = "check"
   /\ IF HasToStop THEN wout' = [wout EXCEPT ![w] = "interrupted"] /\ wpc' = [wpc EXCEPT ![w] = "finish"]
-     ELSE IF wcase[w] = K THEN wout' = [wout EXCEPT ![w] = "success"] /\ wpc' = [wpc EXCEPT ![w] = "finish"]
-     ELSE wpc' = [wpc EXCEPT ![w] = "send"] /\ UNCHANGED wout
+     ELSE \/ wcase[w] < K /\ wpc' = [wpc EXCEPT ![w] = "send"] /\ UNCHANGED wout
+          \/ /\ wpc' = [wpc EXCEPT ![w] = "finish"]
+             /\ \/ wout[w] # "none" /\ UNCHANGED wout
+                \/ wout[w] = "none" /\ wout' = [wout EXCEPT ![w] = "success"]
+                \/ wout[w] = "none" /\ wcase[w] = 0 /\ wout' = [wout EXCEPT ![w] = "skip"]    \* nothing to run (no examples)
   /\ NoEmit /\ CUnch /\ UNCHANGED <<nextOp, q, wop, wcase, stop, problem, sentAfterStop, stopped, faulted>>
-W_Send(w) ==           \* transport.send + run_checks: the API decides
+W_Send(w) ==           \* transport.send + run_checks: the API decides; Hypothesis goes on after a failure or an error
   /\ wpc[w] = "send"
   /\ sentAfterStop' = [sentAfterStop EXCEPT ![w] = IF HasToStop THEN @ + 1 ELSE @]
   /\ wcase' = [wcase EXCEPT ![w] = @ + 1]
-  /\ \/ /\ wpc' = [wpc EXCEPT ![w] = "check"] /\ UNCHANGED <<wout, problem>>
-     \/ /\ wout' = [wout EXCEPT ![w] = "failure"] /\ wpc' = [wpc EXCEPT ![w] = "finish"]
-        /\ problem' = problem \cup {<<pi, wop[w]>>}
+  /\ wpc' = [wpc EXCEPT ![w] = "check"]
+  /\ \/ UNCHANGED <<wout, problem>>
+     \/ /\ wout' = [wout EXCEPT ![w] = Worse(@, "failure")] /\ problem' = problem \cup {<<pi, wop[w]>>}
+     \/ /\ wout' = [wout EXCEPT ![w] = "error"] /\ problem' = problem \cup {<<pi, wop[w]>>}       \* network error, broken check
   /\ NoEmit /\ CUnch /\ UNCHANGED <<nextOp, q, wop, stop, stopped, faulted>>
-W_Finish(w) == /\ wpc[w] = "finish" /\ Put(Ev("ScF", pi, ScId(pi, wop[w]), wout[w]))
+(* an errored test reports its errors (NonFatalError) before the scenario is closed *)
+W_PutNFE(w) == /\ wout[w] = "error" /\ (wpc[w] = "finish" \/ (wpc[w] = "nfe" /\ wcase[w] < MaxNFE)) /\ MaxNFE > 0
+               /\ Put(Ev("NFE", pi, ScId(pi, wop[w]), ""))
+               /\ wcase' = [wcase EXCEPT ![w] = IF wpc[w] = "finish" THEN 1 ELSE @ + 1]      \* reused as the count of reported errors
+               /\ wpc' = [wpc EXCEPT ![w] = "nfe"]
+               /\ NoEmit /\ CUnch /\ UNCHANGED <<nextOp, wop, wout, stop, problem, sentAfterStop, stopped, faulted>>
+W_Finish(w) == /\ wpc[w] \in {"finish", "nfe"} /\ Put(Ev("ScF", pi, ScId(pi, wop[w]), wout[w]))
                /\ wpc' = [wpc EXCEPT ![w] = IF wout[w] = "interrupted" THEN "intr" ELSE "loop"]
                /\ NoEmit /\ CUnch /\ UNCHANGED <<nextOp, wop, wcase, wout, stop, problem, sentAfterStop, stopped, faulted>>
 W_Intr(w) == /\ wpc[w] = "intr" /\ Put(Ev("INT", pi, 0, "")) /\ wpc' = [wpc EXCEPT ![w] = "loop"]
@@ -178,15 +201,16 @@ Env_Stop == /\ AllowStop /\ ~stopped /\ ppc # "end" /\ stop' = TRUE /\ stopped' 
             /\ NoEmit /\ WUnch /\ CUnch /\ UNCHANGED <<q, problem, faulted>>
 
 Next == \/ P_Start \/ P_PhaseStarted \/ P_Skip \/ P_Finish
-        \/ U_SuiteStart \/ C_Get \/ C_Timeout \/ C_Alive \/ C_Yield \/ C_CtrlC \/ C_Join \/ U_SuiteFinish \/ U_PhaseFinish
+        \/ U_SuiteStart \/ C_Get \/ C_Timeout \/ C_Alive \/ C_Yield \/ C_CtrlC \/ C_CtrlCGet \/ C_Join \/ U_SuiteFinish \/ U_PhaseFinish
         \/ \E w \in Workers : W_Loop(w) \/ W_Create(w) \/ W_Err1(w) \/ W_Err2(w) \/ W_Started(w) \/ W_CaseCheck(w)
-                               \/ W_Send(w) \/ W_Finish(w) \/ W_Intr(w)
+                               \/ W_Send(w) \/ W_PutNFE(w) \/ W_Finish(w) \/ W_Intr(w)
         \/ Env_Stop
 Spec == Init /\ [][Next]_vars
 (* liveness: the main thread (plan loop + consumer) and every worker thread keep running; the environment owes nothing *)
 MainNext == P_Start \/ P_PhaseStarted \/ P_Skip \/ P_Finish \/ U_SuiteStart \/ C_Get \/ C_Timeout \/ C_Alive \/ C_Yield \/ C_CtrlC
             \/ C_Join \/ U_SuiteFinish \/ U_PhaseFinish
 WorkerNext(w) == W_Loop(w) \/ W_Create(w) \/ W_Err1(w) \/ W_Err2(w) \/ W_Started(w) \/ W_CaseCheck(w) \/ W_Send(w) \/ W_Finish(w) \/ W_Intr(w)
+                 \/ W_PutNFE(w)
 FairSpec == Spec /\ WF_vars(MainNext) /\ \A w \in Workers : WF_vars(WorkerNext(w))
 
 \* properties
